@@ -85,6 +85,7 @@ fn variants(kind: &str) -> Vec<&'static str> {
         "any" => vec![
             "text/parsed", "text/created", "attrtext/parsed", "comment/parsed", "comment/created",
             "cdata/parsed", "cdata/created", "merged/parsed", "text/detached", "cdata/detached", "comment/detached",
+            "text/twins",
         ],
         "text" => vec!["text/created"],
         "attr" => vec!["attr/set", "attrtext/second"],
@@ -143,6 +144,25 @@ fn build(variant: &'static str, s: &str) -> Result<Subject, String> {
                         .map_err(|e| format!("refused:{}", err_name(&e)))?
                         .as_node(),
                 };
+                e.append_child(node.clone()).map_err(|e| format!("refused:{}", err_name(&e)))?;
+                Ok(Subject { doc, node, attr: None, variant })
+            }
+            "text/twins" => {
+                // the subject is the LAST text child; before it, separated by elements, text nodes holding every non-empty
+                // prefix of its data and the data itself: look-alikes of whatever a split leaves in the subject
+                let doc = parse("<r/>", false).ok_or("skip")?;
+                let e = root(&doc).ok_or("skip")?;
+                let chars: Vec<char> = s.chars().collect();
+                if chars.is_empty() {
+                    return Err("skip".into());
+                }
+                for k in 1..=chars.len() {
+                    let pre: String = chars[..k].iter().collect();
+                    e.append_child(doc.create_text_node(&pre).as_node()).map_err(|e| format!("refused:{}", err_name(&e)))?;
+                    e.append_child(doc.create_element("x").map_err(|e| format!("refused:{}", err_name(&e)))?.as_node())
+                        .map_err(|e| format!("refused:{}", err_name(&e)))?;
+                }
+                let node = doc.create_text_node(s).as_node();
                 e.append_child(node.clone()).map_err(|e| format!("refused:{}", err_name(&e)))?;
                 Ok(Subject { doc, node, attr: None, variant })
             }
